@@ -84,55 +84,32 @@ def eval_callback(fn, item):
 
 
 def decoder_model(ctx, g, ntname):
-    """-> callable(text) computing what the grammar action makes of a token text, built from the source."""
+    """-> callable(text) computing what the grammar action makes of a token text: the action (and the helpers it calls, wherever they are defined) is
+    interpreted on the token text (sa/interp.py, fail closed), so the way the decoder is written does not matter."""
+    from ..interp import Interp, Obj, Raised, Env
     prods = g.prods_of(ntname)
     ctx.need(len(prods) == 1 and len(prods[0].rhs) == 1, f'{g.dialect}: nonterminal {ntname} is not a single-token rule')
     fn = prods[0].func
-    rets = [n for n in walk_no_nested(fn) if isinstance(n, ast.Return) and n.value is not None]
-    ctx.need(len(rets) == 1, f'{g.dialect}: action {ntname} has no single return')
-    e = rets[0].value
-    info = {'site': (g.file, rets[0].lineno), 'shape': None, 'steps': None}
-    root, steps = chain_steps(e)
-    if norm(root) in ('p[0]', f'p.{prods[0].rhs[0]}') and steps is not None:
-        info['shape'] = 'chain'
-        info['steps'] = steps
-        return (lambda text: apply_steps(steps, text)), info
-    if isinstance(e, ast.Call) and isinstance(e.func, ast.Name) and e.args and norm(e.args[0]) in ('p[0]', f'p.{prods[0].rhs[0]}'):
-        hf, h = find_helper(ctx, e.func.id, g.file)
-        ctx.need(h is not None, f'{g.dialect}: decoder helper {e.func.id} not found')
-        params = [a.arg for a in h.args.args]
-        bind = {}
-        for pn, a in zip(params[1:], e.args[1:]):
-            bind[pn] = peval.ev(a, {})
-        steps, resub, other = function_steps(h, params[0], env=bind)
-        consts = dict(bind)
-        cb = None
-        for st in h.body:
-            if isinstance(st, ast.FunctionDef):
-                cb = st
-        for st in other:
-            if isinstance(st, ast.Assign) and isinstance(st.targets[0], ast.Name):
-                try:
-                    consts[st.targets[0].id] = peval.ev(st.value, consts)
-                except AnalysisError:
-                    raise AnalysisError(f'{hf}:{st.lineno}: decoder helper statement `{norm(st)}` is not modelled')
-            else:
-                raise AnalysisError(f'{hf}:{st.lineno}: decoder helper statement `{norm(st)}` is not modelled')
-        info.update(shape='helper', steps=steps, helper=f'{hf}:{h.name}', site=(hf, h.lineno))
-        if resub is None:
-            return (lambda text: apply_steps(steps, text)), info
-        pat = peval.ev(resub.args[0], consts)
-        cbname = norm(resub.args[1])
-        ctx.need(cb is not None and cb.name == cbname, f'{hf}: re.sub callback {cbname} is not a local function of {h.name}')
-        info['resub'] = pat
-        # the slice/strip steps that come before the re.sub (source order): function_steps collected only value= chains
-        rx = re.compile(pat)
+    tok = prods[0].rhs[0]
+    info = {'site': (g.file, fn.lineno), 'shape': 'interpreted', 'steps': None}
+    # where the decoding is written (for the report): the helper the action calls, if any
+    for n in walk_no_nested(fn):
+        if isinstance(n, ast.Call) and isinstance(n.func, ast.Name):
+            hf, h = find_helper(ctx, n.func.id, g.file)
+            if h is not None:
+                info.update(helper=f'{hf}:{h.name}', site=(hf, h.lineno))
+    it = Interp.for_file(ctx.src, g.file, {}, {})
 
-        def dec(text):
-            v = apply_steps(steps, text)
-            return rx.sub(lambda m: eval_callback(cb, m.group(0)), v)
-        return dec, info
-    raise AnalysisError(f'{g.file}:{rets[0].lineno}: decoder of {ntname} has an unmodelled shape: `{norm(e)}`')
+    def dec(text):
+        it.steps = 0
+        try:
+            out = it.call_function(fn, [Obj('Parser'), {0: text, tok: text}], {}, Env())
+        except Raised as r:
+            return f'<{r.exc_name}>'
+        if not isinstance(out, str):
+            raise AnalysisError(f'{g.file}:{fn.lineno}: the action {ntname} does not return text for the token {text!r}')
+        return out
+    return dec, info
 
 
 def encoder_model(ctx):
@@ -211,20 +188,9 @@ def check_strings(ctx):
                     bad.append((lit, want, got))
             ctx.ob('C04.decoder', f'{d}:{tok}', not bad,
                    f'{d}: the text {bad[0][0]!r} is accepted as one {tok} token and denotes {bad[0][1]!r}, but the grammar action '
-                   f'`{nt}` ({info["shape"]}: {info.get("steps")}{" + re.sub " + repr(info.get("resub")) if info.get("resub") else ""}) '
+                   f'`{nt}` ({info.get("helper") or "inline"}) '
                    f'yields {bad[0][2]!r}' if bad else '', file=info['site'][0], line=info['site'][1],
                    witness=f'select {bad[0][0]}' if bad else None)
-            # structural: sequential global replaces are not a one-pass unescape
-            nrep = sum(1 for s in (info.get('steps') or []) if s[0] == 'replace')
-            ctx.ob('C04.decoder-one-pass', f'{d}:{tok}', not (syn.escape and nrep >= 2) and not (syn.escape and nrep >= 1 and syn.doubled),
-                   f'{d}: {tok} admits backslash escapes but `{nt}` decodes with {nrep} sequential global str.replace calls; their source '
-                   f'patterns overlap (the tail of an escaped backslash looks like the start of an escaped quote), so some text is '
-                   f'decoded twice', file=info['site'][0], line=info['site'][1], witness="select '\\\\'''")
-            strips = [s for s in (info.get('steps') or []) if s[0] in ('strip', 'lstrip', 'rstrip')]
-            ctx.ob('C04.delimiter-strip', f'{d}:{tok}', not (strips and (syn.escape or syn.doubled)),
-                   f'{d}: `{nt}` removes the delimiters with {strips[0] if strips else ""} although the pattern lets the content begin or '
-                   f'end with the delimiter character (doubled / escaped quote): quotes that belong to the value are stripped',
-                   file=info['site'][0], line=info['site'][1], witness="select ''''")
             if tok == 'QUOTE_STRING':
                 # encoder (printer) against this dialect's own literal syntax
                 badv = []
@@ -302,7 +268,7 @@ def check_variables(ctx):
                    file=hf, line=fn.lineno, witness=f'select {bad[0][0]}' if bad else None)
             # printer: Variable.get_string must produce text that lexes back to the same token & name (mindsdb reference)
             if d == 'mindsdb' and gs is not None:
-                enc = variable_encoder(ctx, gs)
+                enc = variable_encoder(ctx, vci)
                 badp = []
                 for name in ['a', 'a.b', 'x y', 'a-b', '1a', "it's", 'v1x', 'a1', '_9', 'a$b', 'x.y2', 'A']:
                     # only names some spelling of the token can express (a Variable the parser can produce)
@@ -316,69 +282,32 @@ def check_variables(ctx):
                        file=vci.file, line=gs.lineno, witness=f"select @`{badp[0][0]}`" if badp else None)
 
 
-class _Obj:
-    """lets peval evaluate `t.value[0]` style expressions on a plain string"""
-    def __init__(self, value):
-        self.value = value
+def node_printer(ctx, ci, method='get_string'):
+    """-> callable(**attributes) -> the text `method` of the AST class prints for a node with these attributes: the method (with the helpers and module constants
+    of its file and the methods of ASTNode) is interpreted on a stand-in (sa/interp.py, fail closed)"""
+    from ..interp import Interp, Obj, Raised, Env
+    fn = ci.methods.get(method)
+    ctx.need(fn is not None, f'{ci.name}.{method} not found')
+    also = tuple(f for f in ('mindsdb_sql/parser/ast/base.py',) if f != ci.file)
+
+    def pr(**attrs):
+        a = dict(alias=None, parentheses=False)
+        a.update(attrs)
+        it = Interp.for_file(ctx.src, ci.file, {}, {}, also=also)
+        try:
+            out = it.call_function(fn, [Obj(ci.name, **a)], {}, Env())
+        except Raised as r:
+            raise AnalysisError(f'{ci.name}.{method} raises {r.exc_name} for {attrs!r}')
+        if not isinstance(out, str):
+            raise AnalysisError(f'{ci.name}.{method} does not return text for {attrs!r}')
+        return out
+    return pr
 
 
-def variable_encoder(ctx, gs):
-    """Partial evaluation of Variable.get_string(name, is_system_var)."""
-    # module-level `NAME = re.compile(<literal>[, flags])` of the printer's module
-    compiled = {}
-    mod = gs
-    while getattr(mod, '_parent', None) is not None:
-        mod = mod._parent
-    for st in getattr(mod, 'body', []):
-        if isinstance(st, ast.Assign) and isinstance(st.targets[0], ast.Name) and isinstance(st.value, ast.Call) and dotted(st.value.func) == 're.compile' \
-                and st.value.args and const_str(st.value.args[0]) is not None:
-            fl = 0
-            for a in st.value.args[1:]:
-                for x in ast.walk(a):
-                    if isinstance(x, ast.Attribute) and hasattr(re, x.attr):
-                        fl |= int(getattr(re, x.attr))
-            compiled[st.targets[0].id] = (st.value.args[0].value, fl)
-
-    def enc(name, is_sys):
-        env = {'self.value': name, 'self.is_system_var': is_sys, 're.fullmatch': lambda p, s: re.fullmatch(p, s) is not None,
-               're.match': lambda p, s: re.match(p, s) is not None, 'str': str}
-        def ev(e):
-            if isinstance(e, ast.JoinedStr):
-                return ''.join(p.value if isinstance(p, ast.Constant) else str(ev(p.value)) for p in e.values)
-            if isinstance(e, ast.BinOp) and isinstance(e.op, ast.Add):
-                return ev(e.left) + ev(e.right)
-            if isinstance(e, ast.IfExp):
-                return ev(e.body) if ev(e.test) else ev(e.orelse)
-            if isinstance(e, ast.Call) and dotted(e.func) == 'str':
-                return str(ev(e.args[0]))
-            if isinstance(e, ast.Call) and dotted(e.func) in ('re.fullmatch', 're.match'):
-                return env[dotted(e.func)](ev(e.args[0]), ev(e.args[1]))
-            if isinstance(e, ast.Call) and isinstance(e.func, ast.Attribute) and isinstance(e.func.value, ast.Name) and e.func.value.id in compiled \
-                    and e.func.attr in ('fullmatch', 'match', 'search'):
-                pat, fl = compiled[e.func.value.id]
-                return getattr(re, e.func.attr)(pat, ev(e.args[0]), fl) is not None
-            if isinstance(e, ast.UnaryOp) and isinstance(e.op, ast.Not):
-                return not ev(e.operand)
-            return peval.ev(e, env)
-        def run(stmts):
-            for st in stmts:
-                if isinstance(st, ast.Assign) and isinstance(st.targets[0], ast.Name):
-                    env[st.targets[0].id] = ev(st.value)
-                elif isinstance(st, ast.If):
-                    r = run(st.body if ev(st.test) else st.orelse)
-                    if r is not None:
-                        return r
-                elif isinstance(st, ast.Return):
-                    return (ev(st.value),)
-                elif isinstance(st, ast.Expr) and isinstance(st.value, ast.Constant):
-                    continue
-                else:
-                    raise AnalysisError(f'Variable.get_string: unmodelled statement `{norm(st)}`')
-        r = run(gs.body)
-        if r is None:
-            raise AnalysisError('Variable.get_string returns nothing')
-        return r[0]
-    return enc
+def variable_encoder(ctx, vci):
+    """Variable.get_string interpreted: (name, is_system_var) -> printed text"""
+    pr = node_printer(ctx, vci)
+    return lambda name, is_sys: pr(value=name, is_system_var=is_sys)
 
 
 def check_identifier_paths(ctx):
